@@ -181,23 +181,26 @@ def run(ctx):
 
     ie = one_method(chk, "C05.b", u, BKT, "is_empty")
     if ie:
-        b = ie.body
-        sy = Sym(ie)
-        rets = []
-        for i, k, st in b.stmts():
-            if st["k"] == "assign" and st["p"]["l"] == 0 and not st["p"].get("pr"):
-                rets.append((i, strip_sym(sy.rvalue(st["rv"], 0, frozenset()))))
-
         def is_zero_test(v, callee):
             return v[0] == "bin" and v[1] == "Eq" and ((sym_is_call(v[2], callee) and const_int(v[3]) == 0) or (sym_is_call(v[3], callee) and const_int(v[2]) == 0))
 
+        # the value is produced either by is_empty itself or by the closure it hands to Option::map_or / is_none_or
         ok = False
-        for i, v in rets:
-            for first, second in (("Block<T>::len", "Block<T>::next_len"), ("Block<T>::next_len", "Block<T>::len")):
-                if is_zero_test(v, second) and any(lab is True and is_zero_test(strip_sym(d), first) for d, lab in gates(b, i)):
-                    ok = True
-        trues = [i for i, v in rets if v[:3] == ("const", "bool", True)]
-        ok_null = all(any(lab is True and sym_is_call(d, "is_null") for d, lab in gates(b, i)) for i in trues)
+        ok_null = True
+        for g_ in ie.region():
+            b = g_.body
+            sy = Sym(g_)
+            rets = []
+            for i, k, st in b.stmts():
+                if st["k"] == "assign" and st["p"]["l"] == 0 and not st["p"].get("pr"):
+                    rets.append((i, strip_sym(sy.rvalue(st["rv"], 0, frozenset()))))
+            for i, v in rets:
+                for first, second in (("Block<T>::len", "Block<T>::next_len"), ("Block<T>::next_len", "Block<T>::len")):
+                    if is_zero_test(v, second) and any(lab is True and is_zero_test(strip_sym(d), first) for d, lab in gates(b, i, up=False)):
+                        ok = True
+            if g_ is ie:
+                trues = [i for i, v in rets if v[:3] == ("const", "bool", True)]
+                ok_null = all(any(lab is True and sym_is_call(d, "is_null") for d, lab in gates(b, i)) for i in trues)
         chk.ob("C05.b", ie.path, ok and ok_null, "is_empty() is true only for a null tail, or an empty tail block whose predecessor is empty too" if ok and ok_null else "is_empty() does not look at the block behind a fresh, still empty tail: it reports `empty` while completed pushes sit in the older blocks", ie.loc())
     nlf = (u.method(BLK, "next_len") or [None])[0]
     if nlf:
@@ -270,14 +273,13 @@ def run(ctx):
         ok = len(cas) == 1 and cas[0][1] == "compare_exchange" and sym_is_call(cas[0][3][2], "Shared<'g, T>::null")
         chk.ob("C05.e", f"{cw.path} [single detaching CAS]", ok, "one strong compare_exchange(tail -> null)" if ok else "clear_with does not detach the chain with exactly one compare_exchange to null", cw.loc())
         if ok:
+            from props.common import cas_flow
+
+            flow = cas_flow(cw, cas[0][0])
+
             def on_success(bb):
-                for d, lab in gates(b, bb):
-                    d = strip_sym(d)
-                    if sym_is_call(d, "Result<T, E>::is_ok") and lab is True and sym_is_call(strip_sym(d[2][0]), "compare_exchange"):
-                        return True
-                    if sym_is_call(d, "compare_exchange") and lab == "Ok":
-                        return True
-                return False
+                return flow.at(bb) == "P"
+
             reads = [c for c in nonforeign_calls(cw) if c.fn is cw and c.is_("Block<T>::data", "Guard::defer_unchecked")]
             bad = [c for c in reads if not on_success(c.bb)]
             chk.ob("C05.e", f"{cw.path} [reads and frees only after winning the detach]", reads and not bad, f"{len(reads)} read/defer sites, all on the CAS-success edge" if reads and not bad else "blocks are read or scheduled for freeing without having won the detaching CAS (two clearers would deliver/free the same blocks)", cw.loc())
